@@ -316,7 +316,14 @@ fn trees_mode(rng: &mut Rng, n: usize, thorough: bool) {
     let (y0, y1, _) = roots1d(rng, nx * 3 + 1);
     let x = (x0, x1, *nx);
     let y = (y0, y1, *ny);
-    let seq: Vec<(f64, f64)> = Steps2D(x, y).into_iter().collect();
+    let seq: Vec<(f64, f64)> = match guarded(move || Steps2D(x, y).into_iter().collect::<Vec<(f64, f64)>>()) {
+      Ok(v) => v,
+      Err(m) => {
+        emit(json!({"kind": "seq_panic", "what": "Steps2D(x, y).into_iter().collect()", "x": [fx(x.0), fx(x.1), x.2], "y": [fx(y.0), fx(y.1), y.2], "message": m}));
+        root += 1;
+        continue;
+      }
+    };
     emit(json!({"kind": "root2d", "root": root, "x0": fx(x0), "x1": fx(x1), "nx": nx, "y0": fx(y0), "y1": fx(y1), "ny": ny, "seq": flat(&seq), "mode": "all"}));
     let trees = all_trees(nx * ny, &mut memo);
     for (i, t) in trees.iter().enumerate() {
@@ -336,7 +343,14 @@ fn trees_mode(rng: &mut Rng, n: usize, thorough: bool) {
     let (y0, y1, _) = roots1d(rng, ny + 2);
     let x = (x0, x1, nx);
     let y = (y0, y1, ny);
-    let seq: Vec<(f64, f64)> = Steps2D(x, y).into_iter().collect();
+    let seq: Vec<(f64, f64)> = match guarded(move || Steps2D(x, y).into_iter().collect::<Vec<(f64, f64)>>()) {
+      Ok(v) => v,
+      Err(m) => {
+        emit(json!({"kind": "seq_panic", "what": "Steps2D(x, y).into_iter().collect()", "x": [fx(x.0), fx(x.1), x.2], "y": [fx(y.0), fx(y.1), y.2], "message": m}));
+        root += 1;
+        continue;
+      }
+    };
     emit(json!({"kind": "root2d", "root": root, "x0": fx(x0), "x1": fx(x1), "nx": nx, "y0": fx(y0), "y1": fx(y1), "ny": ny, "seq": flat(&seq), "mode": "single"}));
     for k in 0..=(nx * ny) {
       emit_tree2d(root, x, y, &Tree::Node(k, Box::new(Tree::Leaf), Box::new(Tree::Leaf)), false, k % 9 == 1, &seq, true);
@@ -353,7 +367,14 @@ fn trees_mode(rng: &mut Rng, n: usize, thorough: bool) {
     let (y0, y1, _) = roots1d(rng, i + 1);
     let x = (x0, x1, nx);
     let y = (y0, y1, ny);
-    let seq: Vec<(f64, f64)> = Steps2D(x, y).into_iter().collect();
+    let seq: Vec<(f64, f64)> = match guarded(move || Steps2D(x, y).into_iter().collect::<Vec<(f64, f64)>>()) {
+      Ok(v) => v,
+      Err(m) => {
+        emit(json!({"kind": "seq_panic", "what": "Steps2D(x, y).into_iter().collect()", "x": [fx(x.0), fx(x.1), x.2], "y": [fx(y.0), fx(y.1), y.2], "message": m}));
+        root += 1;
+        continue;
+      }
+    };
     // the sequence itself is not printed for long grids; the comparison with it is reduced to the differing positions
     emit(json!({"kind": "root2d", "root": root, "x0": fx(x0), "x1": fx(x1), "nx": nx, "y0": fx(y0), "y1": fx(y1), "ny": ny, "seq": Value::Null, "seq_len": seq.len(), "mode": "random"}));
     for j in 0..3 {
@@ -412,13 +433,15 @@ fn on_pool<R: Send + 'static, F: FnOnce() -> R + Send + 'static>(threads: usize,
   let (tx, rx) = mpsc::channel();
   std::thread::spawn(move || {
     let pool = rayon::ThreadPoolBuilder::new().num_threads(threads).build().unwrap();
-    let r = std::panic::catch_unwind(std::panic::AssertUnwindSafe(|| pool.install(f)));
+    let r = std::panic::catch_unwind(std::panic::AssertUnwindSafe(|| pool.install(f))).map_err(|e| {
+      if let Some(s) = e.downcast_ref::<&str>() { s.to_string() } else if let Some(s) = e.downcast_ref::<String>() { s.clone() } else { "panic".to_string() }
+    });
     let _ = tx.send(r);
   });
   match rx.recv_timeout(Duration::from_secs(limit_s)) {
     Ok(Ok(r)) => Some(r),
-    Ok(Err(_)) => {
-      emit(json!({"kind": "pool_panic", "threads": threads, "what": what}));
+    Ok(Err(msg)) => {
+      emit(json!({"kind": "pool_panic", "threads": threads, "what": what, "message": msg}));
       None
     }
     Err(_) => {
@@ -438,7 +461,13 @@ fn pools_mode(rng: &mut Rng, n: usize, thorough: bool) {
     let (y0, y1, _) = roots1d(rng, case + 2);
     let (nx, ny) = (1 + rng.below(40), 1 + rng.below(40));
     let seq1: Vec<f64> = Steps(s, e, len).into_iter().collect();
-    let seq2: Vec<(f64, f64)> = Steps2D((s, e, nx), (y0, y1, ny)).into_iter().collect();
+    let seq2: Vec<(f64, f64)> = match guarded(move || Steps2D((s, e, nx), (y0, y1, ny)).into_iter().collect::<Vec<(f64, f64)>>()) {
+      Ok(v) => v,
+      Err(m) => {
+        emit(json!({"kind": "seq_panic", "what": "Steps2D(x, y).into_iter().collect()", "x": [fx(s), fx(e), nx], "y": [fx(y0), fx(y1), ny], "message": m}));
+        continue;
+      }
+    };
     emit(json!({"kind": "pool_grid_ref", "case": case, "s": fx(s), "e": fx(e), "n": len, "seq1": fxs(&seq1), "nx": nx, "ny": ny, "y0": fx(y0), "y1": fx(y1), "seq2": flat(&seq2)}));
     for &t in &threads {
       for rep in 0..reps {
@@ -560,6 +589,41 @@ fn pools_mode(rng: &mut Rng, n: usize, thorough: bool) {
   }
 }
 
+/// the 1-D producer through REAL rayon drives (collect / map+collect / sum / for_each — everything that ends in Producer::fold_with),
+/// on every length 0..=40 (one-point leaves occur whenever the range is short relative to the pool) and several pool sizes
+fn short_mode(rng: &mut Rng, n: usize) {
+  for len in 0..=40usize {
+    for rep in 0..n.max(1) {
+      let (s, e, cls) = roots1d(rng, len + 7 * rep);
+      let seq: Vec<f64> = Steps(s, e, len).into_iter().collect();
+      emit(json!({"kind": "short_ref", "len": len, "rep": rep, "cls": cls, "s": fx(s), "e": fx(e), "seq": fxs(&seq)}));
+      for threads in [1usize, 2, 3, 4, 8, 16] {
+        let r = on_pool(threads, 120, "short 1-D range through rayon", move || {
+          let a: Vec<f64> = Steps(s, e, len).into_par_iter().collect();
+          let b: Vec<f64> = Steps(s, e, len).into_par_iter().map(|x| x).collect();
+          let sum: f64 = Steps(s, e, len).into_par_iter().sum();
+          let msum: f64 = Steps(s, e, len).into_par_iter().map(|x| 2. * x).sum();
+          let cnt = Steps(s, e, len).into_par_iter().count();
+          let fe = std::sync::Mutex::new(Vec::new());
+          Steps(s, e, len).into_par_iter().for_each(|x| fe.lock().unwrap().push(x));
+          let mut fe = fe.into_inner().unwrap();
+          fe.sort_by(|x, y| x.total_cmp(y));
+          let en: Vec<(usize, f64)> = Steps(s, e, len).into_par_iter().enumerate().collect();
+          (a, b, sum, msum, cnt, fe, en)
+        });
+        if let Some((a, b, sum, msum, cnt, fe, en)) = r {
+          let en_idx_ok = en.iter().enumerate().all(|(i, p)| p.0 == i);
+          let env: Vec<f64> = en.iter().map(|p| p.1).collect();
+          emit(json!({"kind": "short", "len": len, "rep": rep, "threads": threads, "collect": fxs(&a), "map_collect": fxs(&b), "sum": fx(sum), "map_sum": fx(msum),
+            "count": cnt, "for_each_sorted": fxs(&fe), "enum_idx_ok": en_idx_ok, "enum_vals": fxs(&env)}));
+        } else {
+          emit(json!({"kind": "short_failed", "len": len, "rep": rep, "threads": threads, "s": fx(s), "e": fx(e), "debug_assertions": cfg!(debug_assertions)}));
+        }
+      }
+    }
+  }
+}
+
 // ------------------------------------------------------------------------------------------------ rayon's bridge, observed
 /// an index-range producer that records every split_at rayon's bridge asks for (validates Model/C15_Bridge.v against the real rayon)
 struct LogProducer {
@@ -666,6 +730,9 @@ pub fn run(args: &[String]) {
   }
   if mode == "pools" || mode == "all" {
     pools_mode(&mut rng, n, thorough);
+  }
+  if mode == "short" || mode == "all" {
+    short_mode(&mut rng, n);
   }
   if mode == "bridge" || mode == "all" {
     bridge_mode(&mut rng, n);
